@@ -682,7 +682,79 @@ func c02SelfVerify(c *Ctx, r *R) {
 	// reached map initialised from DelegationEnvelopes and marked true only for visited delegations
 	doneD := rangeDoneEdges(fn, eng.PField("DelegationEnvelopes", nil))
 	r.Check(len(doneD) > 0, "dangling-over-all-files", fn.Pos(), "reachability is tracked for every member of DelegationEnvelopes", "reachability is not initialised from every member of DelegationEnvelopes")
-	// the walk loop bound len(queue) > 1 (allow rule) and expansion only if HasTargetsRole
+	// polarity and placement, not mere presence:
+	// (a) success is reached only with the primary rule file verified, or absent
+	absent := eng.RelEdges(fn, token.EQL, eng.PField("TargetsEnvelope", nil), eng.PNil())
+	cutP := eng.NewCut().AddEdges(absent...)
+	for _, v := range vs {
+		if eng.PCall("(*internal/policy.State).getTargetsVerifier", 0)(v.Recv()) {
+			v.OKPoints(cutP)
+		}
+	}
+	mustPass(c, r, "primary-verified-or-absent", fn, isSuccessReturn, cutP,
+		"State.Verify succeeds only with the primary rule file's signatures verified, or no primary rule file",
+		"State.Verify can succeed with a primary rule file present whose signatures were not verified (presence test inverted or verification bypassed)")
+	// (b) and the root envelope verified, unconditionally
+	cutR := eng.NewCut()
+	for _, v := range vs {
+		if eng.PCall("(*internal/policy.State).getRootVerifier", 0)(v.Recv()) {
+			v.OKPoints(cutR)
+		}
+	}
+	mustPass(c, r, "root-verified", fn, isSuccessReturn, cutR, "State.Verify succeeds only with the root envelope verified by its own root principals", "State.Verify can succeed without the root envelope having been verified")
+	// (c) a delegated rule file that exists is verified before it is marked reached and before its
+	// rules are followed: from the true edge of HasTargetsRole(delegation.ID()) the next rule / success
+	// is reached only through the delegated Verify's nil edge
+	has := eng.BoolEdges(fn, func(v ssa.Value) bool {
+		k, _, ok := eng.RootCall(v)
+		return ok && k.Method() == "HasTargetsRole" && eng.PMethod("ID", nil)(k.Arg(0))
+	}, true)
+	cutD := eng.NewCut()
+	for _, v := range vs {
+		if !eng.PCall("(*internal/policy.State).getTargetsVerifier", 0)(v.Recv()) && !eng.PCall("(*internal/policy.State).getRootVerifier", 0)(v.Recv()) {
+			v.OKPoints(cutD)
+		}
+	}
+	heads := map[ssa.Instruction]bool{}
+	for in := range loopHeads(fn) {
+		// the walk's own loop: `for len(delegationsQueue) > 1`
+		if _, ok := eng.CmpAtom(in.(*ssa.If).Cond, eng.PLen(eng.PAny()), eng.PInt(1)); ok {
+			heads[in] = true
+		}
+	}
+	okD := len(has) > 0 && len(heads) == 1
+	for _, e := range has {
+		if p := eng.FindPath(e.To(), 0, func(in ssa.Instruction) bool { return heads[in] || isSuccessReturn(in) }, cutD); p != nil {
+			okD = false
+		}
+	}
+	r.Check(okD, "delegated-verified-when-present", fn.Pos(), "an existing delegated rule file is verified before the walk moves on", "a delegated rule file that exists can be passed over without its signatures being verified against the delegating rule")
+	// (d) dangling: the error is returned exactly on the not-reached edge of the scan over the reachability map
+	reachedVal := func(v ssa.Value) bool {
+		ex, ok := v.(*ssa.Extract)
+		if !ok {
+			return false
+		}
+		nx, ok := ex.Tuple.(*ssa.Next)
+		if !ok || ex.Index != 2 {
+			return false
+		}
+		rg, ok := nx.Iter.(*ssa.Range)
+		return ok && strings.HasSuffix(rg.X.Type().String(), "map[string]bool")
+	}
+	notReached := eng.BoolEdges(fn, reachedVal, false)
+	okDang := len(notReached) > 0
+	for _, e := range notReached {
+		if p := eng.LeadsOnlyToErr(e, "ErrDanglingDelegationMetadata"); p != nil {
+			okDang = false
+		}
+	}
+	r.Check(okDang, "dangling-polarity", fn.Pos(), "a rule file that was not reached → ErrDanglingDelegationMetadata", "an unreached delegated rule file does not lead to ErrDanglingDelegationMetadata (test inverted or removed)")
+	for _, h := range eng.LoopsOver(fn, func(v ssa.Value) bool { return strings.HasSuffix(v.Type().String(), "map[string]bool") }) {
+		scanExhaustive(c, r, "dangling-all-checked", h, nil, "reachability map")
+	}
+	// (e) the reachability mark is set to true only for a file that was verified (behind the delegated Verify… or, as on the
+	// reference tree, immediately on the HasTargetsRole edge whose continuation must pass that Verify: covered by (c))
 	_ = recv
 }
 
